@@ -36,6 +36,8 @@ type ccConnSpec struct {
 	Ip     string `json:"ip"`
 	Addr   string `json:"addr"`
 	Listen string `json:"listen"`
+	Lport  string `json:"lport"` // the listen port the remote peer announces in its version message
+	Fam    string `json:"fam"`
 	Kid    string `json:"kid"`
 }
 
@@ -46,7 +48,11 @@ type ccAct struct {
 }
 
 type ccInput struct {
-	Conns    map[string]ccConnSpec `json:"conns"`
+	Conns    map[string]ccConnSpec `json:"conns"` // the attempts of the path being replayed (= Plans[PathPlan[path]])
+	// the address plans of the model: per plan the texts of every attempt (remote address as RemoteAddr().String()
+	// returns it: "a.b.c.d:port" / "[v6]:port"; dial address; host text as net.SplitHostPort returns it)
+	Plans    map[string]map[string]ccConnSpec `json:"plans"`
+	PathPlan []string                         `json:"pathPlan"`
 	MaxIn    uint                  `json:"maxIn"`
 	MaxPerIp uint                  `json:"maxPerIp"`
 	MaxOut   uint                  `json:"maxOut"`
@@ -191,9 +197,13 @@ func ccKey(name string) *common.PeerKeyId {
 	return k
 }
 
-func ccPort(addr string) uint16 {
-	_, p, err := net.SplitHostPort(addr)
-	vhMust(err)
+func ccPort(s ccConnSpec) uint16 {
+	p := s.Lport
+	if p == "" {
+		var err error
+		_, p, err = net.SplitHostPort(s.Listen)
+		vhMust(err)
+	}
 	n, err := strconv.Atoi(p)
 	vhMust(err)
 	return uint16(n)
@@ -218,7 +228,7 @@ func newCcWorld(in *ccInput) *ccWorld {
 // the remote node's side of the handshake (the real handshake code of the repository)
 func (c *ccConn) serveRemote(w *ccWorld) {
 	key := ccKeys[c.spec.Kid] // created by newCcWorld
-	info := &peer.PeerInfo{Id: key.Id, Port: ccPort(c.spec.Listen), SoftVersion: common.MIN_VERSION_FOR_DHT}
+	info := &peer.PeerInfo{Id: key.Id, Port: ccPort(c.spec), SoftVersion: common.MIN_VERSION_FOR_DHT}
 	var err error
 	if c.spec.Dir == "in" {
 		_, err = handshake.HandshakeClient(info, key, c.remote)
@@ -455,6 +465,13 @@ func TestVerifConnReplay(t *testing.T) {
 	out := vhOpenOut()
 	defer out.Close()
 	for pi, path := range in.Paths {
+		if pi < len(in.PathPlan) {
+			in.Conns = in.Plans[in.PathPlan[pi]]
+		}
+		if len(in.Conns) == 0 {
+			out.Emit(&ccObs{Path: pi, Step: -1, Infra: "no connection table for the path's address plan"})
+			continue
+		}
 		w := newCcWorld(&in)
 		o := ccObs{Path: pi, Step: 0, Res: "init"}
 		w.observe(&o)
